@@ -298,7 +298,8 @@ theorem removable_mono (own : Own) (s s' : Store) (addrs : List Addr) (tx : Tx)
 
 theorem unminedStep_cases (own : Own) (addrs : List Addr) (acc : Store × List TxId) (h : TxId) :
     unminedStep own addrs acc h = acc ∨ ∃ tx, AMap.get acc.1.pending h = some tx ∧ removable own acc.1 addrs tx = true ∧
-      unminedStep own addrs acc h = ({ acc.1 with pending := AMap.erase acc.1.pending h }, acc.2 ++ [h]) := by
+      unminedStep own addrs acc h =
+        ({ removeUnminedInputsOf acc.1 tx with pending := AMap.erase acc.1.pending h }, acc.2 ++ [h]) := by
   unfold unminedStep
   split
   · exact Or.inl rfl
@@ -337,7 +338,9 @@ theorem unminedTxs_kept (own : Own) (s : Store) (addrs : List Addr) (hs : List T
       simp only [List.foldl_cons]
       rcases unminedStep_cases own addrs acc a with h | ⟨tx, hg, hrem, h⟩ <;> rw [h]
       · exact ih acc hc hp hsub hxa
-      · refine ih _ hc hp (fun y hy => hsub y (erase_subset _ _ _ hy)) ?_
+      · refine ih _ ((removeUnminedInputsOf_proj Store.credits (fun _ _ => rfl) acc.1 tx).trans hc)
+          ((removeUnminedInputsOf_proj Store.pendCred (fun _ _ => rfl) acc.1 tx).trans hp)
+          (fun y hy => hsub y (erase_subset _ _ _ hy)) ?_
         apply mem_erase_of_ne _ _ _ hxa
         intro heq
         have hfa : Functional acc.1.pending := fun e e' he he' => hfun e e' (hsub e he) (hsub e' he')
